@@ -27,7 +27,7 @@ PROBES = ["foo", "kfoo", "pc", "kpc", "Mpc", "m", "km", "Msun", "yr", "foo*pc/yr
 CREATE = ["plain", "plain_foo3", "plain_foo3", "lut_copy", "from_json", "unpickle", "deepcopy", "unit_copy_deep", "cgs", "no_defaults_json"]
 OPS = ["add_foo", "add_foo_other", "add_qux_prefixable", "modify_foo", "modify_pc", "remove_pc", "remove_foo", "construct", "arith", "add_symbols", "add_constants",
        "unit_system", "pickle_roundtrip", "json_roundtrip", "mixed_mul", "mixed_add", "default_modify", "default_remove", "deepcopy_array", "convert_custom", "define_unit",
-       "fork_deepcopy", "fork_pickle", "fork_array_deepcopy", "define_on_default_copy"]
+       "fork_deepcopy", "fork_pickle", "fork_array_deepcopy", "define_on_default_copy", "mixed_grid", "list_into_registry"]
 _N = itertools.count(1)
 
 
@@ -56,6 +56,14 @@ def digest(reg, deep=True):
                 d["arith:registry"] = (q * q).units.registry is reg or getattr((q * q).units.registry, "lut", None) is reg.lut
         except Exception as e:
             d["arith"] = ("raises", type(e).__name__)
+    own = []
+    for p in ("km", "pc", "g", "kpc", "J", "foo"):
+        try:
+            u_ = Unit(p, registry=reg)
+        except Exception:
+            continue
+        own.append(u_.registry is reg or getattr(u_.registry, "lut", None) is reg.lut)
+    d["units-looked-up-here-belong-here"] = all(own)
     try:
         d["pc->m"] = float(unyt_quantity(1.0, "pc", registry=reg).to("m").v)
     except Exception as e:
@@ -78,6 +86,9 @@ def default_snapshot():
     q = unyt.unyt_quantity
     snap["conversions"] = (float(q(1.0, "kpc").to("m").v), float(q(1.0, "Msun").to("g").v), float(q(1.0, "mile").to("km").v), float(q(1.0, "yr").to("s").v),
                            float(q(300.0, "K").to("degC").v), float((q(2.0, "pc") * q(3.0, "Msun") / q(1.0, "yr")).in_mks().v), float(q(1.0, "J").in_cgs().v))
+    exported = [n for n in ("km", "pc", "kpc", "Msun", "yr", "g", "K", "J", "percent", "degC", "s", "m") if isinstance(getattr(unyt, n, None), unyt.Unit)]
+    snap["exported-units-owned-by-default-registry"] = {n: (getattr(unyt, n).registry is DR, unyt.Unit(n).registry is DR, getattr(unyt.unit_symbols, n).registry is DR) for n in exported}
+    snap["conversions-through-exports"] = (float((1.0 * unyt.km).to("pc").v), float((2.0 * unyt.pc).to("m").v), float((1.0 * unyt.Msun).to("g").v), float((3.0 * unyt.kpc).in_mks().v))
     snap["namespace-size"] = tuple(len([n for n, v in vars(mod).items() if not n.startswith("_") and isinstance(v, (unyt.Unit, unyt.unyt_quantity))]) for mod in (unyt, unyt.unit_symbols))
     snap["digest"] = digest(DR, deep=False)
     return snap
@@ -245,6 +256,48 @@ def apply(op, i, j, regs, x):
             return set(), None
         if not (res.units.registry is r or getattr(res.units.registry, "lut", None) is r.lut):
             return set(), ("mixed-result-not-in-left-registry", repr(res)[:80])
+        acted = set()
+    elif op == "mixed_grid":
+        # left operand kinds x operations: the result lives in the LEFT operand's registry whenever the left operand names a
+        # symbol (a bare unit-less left factor is the documented exception: it names nothing)
+        other = regs[j]
+        if other is r or other.lut is r.lut:
+            return set(), None
+        lefts = ["pc", "percent", "km/m", "1/yr", "rad", "ppm" if "ppm" in r.lut else "percent"]
+        for lu in lefts:
+            for ru, forms in (("yr", ("*", "/", "np.multiply", "np.divide", "unit*", "unit/")), (lu, ("+", "-", "np.maximum", "np.add"))):
+                for form in forms:
+                    try:
+                        a = unyt_array([2.0, 4.0], lu, registry=r)
+                        b = unyt_array([3.0, 5.0], ru, registry=other)
+                        res = {"*": lambda: a * b, "/": lambda: a / b, "np.multiply": lambda: np.multiply(a, b), "np.divide": lambda: np.divide(a, b),
+                               "unit*": lambda: a.units * b.units, "unit/": lambda: a.units / b.units, "+": lambda: a + b, "-": lambda: a - b,
+                               "np.maximum": lambda: np.maximum(a, b), "np.add": lambda: np.add(a, b)}[form]()
+                    except Exception:
+                        continue
+                    ru_ = res.registry if isinstance(res, Unit) else res.units.registry
+                    if not (ru_ is r or getattr(ru_, "lut", None) is r.lut):
+                        return set(), (f"mixed-result-not-in-left-registry:{form}", f"left={lu} right={ru} result={res!r}"[:120])
+        acted = set()
+    elif op == "list_into_registry":
+        # constructors given quantities that live elsewhere plus an explicit registry=: the sources (and the module-level
+        # Unit objects they share) stay what and where they were
+        other = regs[j]
+        srcs = [[1.0 * unyt.km, 2.0 * unyt.km], (3.0 * unyt.pc, 4.0 * unyt.pc), [unyt_quantity(1.0, "pc", registry=other), unyt_quantity(2.0, "kpc", registry=other)],
+                [unyt.unyt_quantity(5.0, "Msun"), unyt.unyt_quantity(6.0, "g")]]
+        owners = [[q_.units.registry for q_ in l_] for l_ in srcs]
+        unit_ids = [[id(q_.units) for q_ in l_] for l_ in srcs]
+        for l_ in srcs:
+            for ctor in (lambda z: unyt_array(z, registry=r), lambda z: unyt_array(list(z)[0], registry=r), lambda z: unyt_quantity(list(z)[0], registry=r),
+                         lambda z: unyt_array(unyt_array(z), registry=r)):
+                try:
+                    ctor(l_)
+                except Exception:
+                    pass
+        for l_, ow, ids in zip(srcs, owners, unit_ids):
+            for q_, o_, id_ in zip(l_, ow, ids):
+                if q_.units.registry is not o_:
+                    return set(), ("constructor-with-registry-rebinds-its-source", f"{q_!r}"[:80])
         acted = set()
     elif op == "default_modify":
         try:
